@@ -32,6 +32,7 @@ is never re-attached together with its instances.
 Fifth round: C04.1 the affinity of an instance is set by its constructor only, and the restart repair takes a duplicated instance off every server through Server.remove (shared with C10.3).
 Sixth round: C04.2 a bucket without a recorded level takes the first component of its name.
 Seventh round: C04.1 the placement attribute of an instance is written by Server.put / Server.remove only (shared owner clause of C01.3), and an instance leaves the cell only after it was taken off its server, whatever the state of that server (shared with C05.2).
+Eighth round: C04.1 OWNER over the whole package - the affinity counter of a node is edited only by increment_affinity / decrement_affinity and created by constructors.
 Does NOT decide that the counters equal the true counts over histories.
 """
 
